@@ -1,6 +1,8 @@
 /- helper lemmas: the in-place writes reachable from queries only rescale rows positively -/
 import GT.Model.ObjState
 import GT.Lemmas.ND
+import GT.Model.Charts
+import Mathlib.Algebra.BigOperators.Fin
 import Mathlib.Algebra.Order.Field.Basic
 import Mathlib.Algebra.Order.AbsoluteValue.Basic
 import Mathlib.Tactic.FinCases
@@ -13,7 +15,7 @@ set_option linter.unusedVariables false
 
 open Matrix
 
-namespace GT
+namespace GT.Act
 open ND
 
 variable {K : Type} [Field K] [LinearOrder K] [IsStrictOrderedRing K] [Inhabited K] {n : ℕ}
@@ -213,4 +215,19 @@ theorem tangentOriginWriteND_pos {r : K → K} (hr : RootNonneg r) (a : ND K) {s
       simp only [Pi.smul_apply, smul_eq_mul] at this
       simpa [hXdef] using this
 
-end GT
+/-- the matrix form used here is C01's Minkowski form -/
+theorem bil_minkJ {m : ℕ} (x y : Fin (m + 1) → K) : bil (minkJ (m + 1)) x y = mink x y := by
+  unfold bil minkJ mink dot
+  simp only [Matrix.mulVec_diagonal, dotProduct, Fin.sum_univ_succ, Fin.val_zero, if_true, Fin.tail]
+  have : ∀ i : Fin m, (if (i.succ : Fin (m + 1)).1 = 0 then (-1 : K) else 1) = 1 := by
+    intro i; simp
+  simp only [this]
+  ring_nf
+
+/-- `normalizeRow` is C01's `normalize` -/
+theorem normalizeRow_eq_normalize {m : ℕ} (r : K → K) (x : Fin (m + 1) → K) :
+    normalizeRow r x = GT.normalize r x := by
+  unfold normalizeRow GT.normalize
+  rw [bil_minkJ]
+
+end GT.Act
